@@ -1391,8 +1391,10 @@ class Interp:
         if self.hooks:
             h = self.hooks.get(name) or self.hooks.get(split_path(name)[-1])
             if h is not None:
-                self.stubs_used[split_path(name)[-1]] = self.stubs_used.get(split_path(name)[-1], 0) + 1
-                return h(self, args)
+                r_ = h(self, args)
+                if r_ is not NotImplemented:           # a hook may decline (e.g. it only stands in for one receiver type)
+                    self.stubs_used[split_path(name)[-1]] = self.stubs_used.get(split_path(name)[-1], 0) + 1
+                    return r_
         if self.observers:
             ob = self.observers.get(split_path(name)[-1])
             if ob is not None:
